@@ -110,11 +110,12 @@ Definition check_site (c : site_case) : list string :=
     tag_if (negb (list_eqb String.eqb (go_fields (s_in c)) (s_out c))) "mismatch:value-fields"
   else ["mismatch:unknown-kind"].
 
-(* ---- session 4: ImageConfiguration.Load on real directory trees (stage `includes`) against load_config.
+(* ---- session 4: ImageConfiguration.Load on real directory trees (stage `includes`) against load_config
+   (the loader since fix 43ae291: a resolved path met again is an error).
    [g_out]: contents.packages of the merged configuration = the markers of the files loaded, innermost
-   first. The model runs with fuel 40; the trees have at most 6 files, and a chain that ends loads at
-   most |files| + 1 of them (c15_include_chain_fuel_bound), so OutOfFuel here is the endless recursion.
-   A load that does not come back is finding C15-F6 whatever the spelling of the cycle. *)
+   first. The model runs with fuel 40 and with the proved bound |files| + 2 (c15_include_chain_fuel_bound,
+   c15_include_load_terminates_on_trees): it never runs out of fuel, so a load that does not come back is a
+   mismatch AND carries the tag of the repaired finding C15-F6 (armed, no longer listed). *)
 Record cfg_case := { g_fs : cfs; g_incs : list string; g_req : string; g_obs : rclass; g_out : list string }.
 Definition check_cfg (c : cfg_case) : list string :=
   let m := load_config 40 (g_fs c) (g_incs c) (g_req c) in
